@@ -10,6 +10,7 @@ import (
 	"fmt"
 	"io"
 	"net"
+	"os"
 	"reflect"
 	"runtime"
 	"strings"
@@ -34,7 +35,7 @@ type lcFault struct {
 	dir    byte   // 'd' | 'r' | 'w'
 	conn   int    // connection index (for 'd': dial attempt index)
 	k      int    // operation index on that connection
-	kind   string // eof | closed | reset | partial (read) ; closed | reset | short | eof (write) ; car (write: server closes after replying)
+	kind   string // eof | closed | reset | partial | timeout | ueof (read) ; closed | reset | short | eof (write) ; car (write: server closes after replying)
 	// write, the read side of the connection stays healthy: hreset | hclosed (the Write fails, nothing is delivered) ;
 	// late (the request is delivered, the server replies, the reader holds the response, THEN the Write reports a reset)
 	timing string // read faults: "call" (fail when the Read is invoked) | "data" (fail when the data arrives)
@@ -59,8 +60,8 @@ func (f *lcFault) letter() byte {
 	case 'd':
 		return 'd'
 	case 'r':
-		if f.kind == "reset" {
-			return 'r'
+		if f.kind == "reset" || f.kind == "timeout" || f.kind == "ueof" {
+			return 'r' // anything that is not an end of stream or a closed connection: not retried
 		}
 		return 'e' // io.EOF, closed pipe, partial message followed by EOF: all retryable for doRountrip
 	default:
@@ -82,6 +83,10 @@ func lcErrFor(kind string, write bool) error {
 		return io.EOF
 	case "closed":
 		return &net.OpError{Op: "io", Net: "pipe", Err: net.ErrClosed}
+	case "timeout":
+		return &net.OpError{Op: "read", Net: "pipe", Err: os.ErrDeadlineExceeded}
+	case "ueof":
+		return io.ErrUnexpectedEOF
 	case "hclosed":
 		return &net.OpError{Op: "write", Net: "pipe", Err: net.ErrClosed}
 	case "hreset", "late":
